@@ -264,6 +264,29 @@ class ServerUnderTest:
         written = sum(len(w_) for w_ in self._st().writes) - self.out0
         return out, written, self.loop.iterations - it0
 
+    def feed_many(self, pkts):
+        """Several packets written back to back, so that the server gets
+        them in ONE chunk (requests pipelined behind one another)."""
+        it0 = self.loop.iterations
+        out = 'ok'
+
+        def burst():
+            for t, body in pkts:
+                self.raw.raw_send(t, body)
+        try:
+            with meter(3.0):
+                self.loop.run_callback(burst)
+        except Watchdog:
+            out = 'spin'
+        except Spin:
+            out = 'spin-iterations'
+        for c in list(self.loop.exceptions):
+            if isinstance(c.get('exception'), Watchdog):
+                self.loop.exceptions.remove(c)
+                out = 'spin'
+        written = sum(len(w_) for w_ in self._st().writes) - self.out0
+        return out, written, self.loop.iterations - it0
+
     def alive(self):
         """Does the server still answer?  (a global request gets a reply)"""
         if self.lost:
@@ -288,7 +311,11 @@ class ServerUnderTest:
         return exc
 
 
-def run_msg_case(name, fields, idx, mut):
+def run_msg_case(name, fields, idx, mut, pipelined=False):
+    """pipelined: the hostile channel request arrives in the same chunk
+    BEHIND requests whose handling completes asynchronously (agent and X11
+    forwarding requests), i.e. it is taken from the channel's request queue
+    later instead of being handled inside data_received."""
     t, phase, _ = TEMPLATES[name]
     if phase == 'KEX':
         phase_run = 'P4'
@@ -302,7 +329,15 @@ def run_msg_case(name, fields, idx, mut):
             kx = build('KEXINIT', FIELDS['KEXINIT'], 0, 'none')
             s.feed(20, kx)
         body = build(name, fields, idx, mut, chan=s.chan)
-        out, written, iters = s.feed(t, body)
+        if pipelined and s.chan is not None:
+            pre = [(98, UInt32(s.chan) +
+                    String(b'auth-agent-req@openssh.com') + Boolean(True)),
+                   (98, UInt32(s.chan) + String(b'x11-req') + Boolean(True) +
+                    Boolean(False) + String(b'MIT-MAGIC-COOKIE-1') +
+                    String(b'00' * 16) + UInt32(0))]
+            out, written, iters = s.feed_many(pre + [(t, body)])
+        else:
+            out, written, iters = s.feed(t, body)
         if out != 'ok':
             bad.append(f'{out}: handling the packet did not finish')
         if written > 4096 + 64 * len(body):
